@@ -36,6 +36,12 @@ CLAIMED["C18"] = dict(engine="seqx", technique="exhaustive enumeration of the at
          "on the full cross product of identifiers (all 16-bit values, QoS constants and neighbours, wide values) and flags: defined ids map to the documented class's queue (by label and pointer identity), others to NULL.",
     design_ref="DESIGN.md §5 C18", note=SEQ + " The queue-specific-data / dispatch_assert_queue half of C18 is decided by dsched tasks of the same check when listed in the evidence.")
 
+CLAIMED["C20"] = dict(engine="seqx", technique="bounded exhaustive input enumeration: every byte string up to a length bound over a byte-class alphabet x every fragmentation x every format pair, on the real transforms under ASan against reference codecs",
+    text="Every byte string up to the bound, in every fragmentation into separately allocated regions (so ASan sees each region edge), is pushed through every accepted format pair; oracles: "
+         "Base32/Base32Hex/Base64 decode(encode(s)) = s and equals an RFC 4648 reference regardless of fragmentation of input or of the encoded text; UTF-8<->UTF-16 round trip of well-formed text modulo a "
+         "leading BOM; for arbitrary input NULL or output accepted by the inverse; no ASan report or trap, each attributed to the exact (bytes, fragmentation, pair).",
+    design_ref="DESIGN.md §5 C20", note=SEQ)
+
 NOT_YET = {}
 
 def main():
